@@ -30,9 +30,9 @@ man = {
     "hooks": {
         "guard": "verif",
         "enable": "go test -c -tags verif -overlay=<harness files from /verif/harness mapped into package mqtt> -modfile=<go.mod + rapid>; "
-                  "the harness is overlaid at build time; one add-only observation hook (verif_hook.go / verif_hook_off.go, one verifPoint call in reconnclient.go)",
+                  "the harness is overlaid at build time; one add-only observation hook (verif_hook.go / verif_hook_off.go, four verifPoint calls in reconnclient.go)",
         "baseline_off_cmd": "cd /repo && go test -vet=off -count=1 -timeout 25m ./...",
-        "source_commits": ["f22e6f8"],
+        "source_commits": ["f22e6f8", "2cb27cb"],
         "add_only": True,
     },
     "engines": [
